@@ -157,7 +157,7 @@ def make_set_script(rng, name):
             steps += 1
     return f"=== {name} plan={plan} nkeys={nkeys}\n" + "\n".join(lines) + "\n"
 
-TABLE_KINDS = ["table-drop", "table-drop", "table-drop", "table-plain", "table-200", "table-a64", "table-1", "table-2", "table-zst"]
+TABLE_KINDS = ["table-drop", "table-drop", "table-drop", "table-plain", "table-200", "table-a64", "table-1", "table-2", "table-zst", "table-zst64"]
 
 def make_table_script(rng, name, kind=None, size=None):
     kind = kind or rng.choice(TABLE_KINDS)
@@ -171,7 +171,7 @@ def make_table_script(rng, name, kind=None, size=None):
     nkeys = max(2, min(size, 250 if kind == "table-1" else 10**6))
     salt = rng.getrandbits(32)
     lines = [f"kind {kind}"] + [f"hash {k} {plan_hash(plan, k, rng, salt)}" for k in range(nkeys + 4)]
-    if kind == "table-zst" or rng.random() < 0.2:
+    if kind in ("table-zst", "table-zst64") or rng.random() < 0.2:
         lines.append(f"twithcap {rng.choice([size, size + 3, 2 * size + 8])}")
     count = {}                   # id -> copies stored (insert_unique admits duplicates)
     stamp = [0]
